@@ -18,6 +18,7 @@ func init() {
 			c.run("C18-R4", "WHO-WRITES: pause flag and generation", c18R4)
 			c.run("C18-R6", "WHO-CALLS: the timeout sentinel travels up the read chain unwrapped", c18Sentinel)
 			c.run("C18-R5", "GUARD-DOM: statistics suspended after a pause never skip releasing the probing encoder", c18R5)
+			c.run("C18-S1", "shared with C11-R10: between two acks the probing encoder is released or the probing is seen to be over (also for acks read across a pause)", c11BufInit)
 		})
 }
 
@@ -104,31 +105,34 @@ func c18R1(c *Ctx) {
 		c.bad("checkStopAndPause/pause-flag", c.pos(g.Pos()), "the gate no longer looks at the pause flag")
 		return
 	}
-	// every nil-error return is on the pausing == false edge (or protocol < 3)
-	eachInstr(g, func(in ssa.Instruction) {
-		r, ok := in.(*ssa.Return)
-		if !ok {
-			return
+	// while the pause flag reads true (protocol >= 3) the gate never lets its caller through: every exit reachable under
+	// that assumption carries an error
+	{
+		isPausing := func(v ssa.Value) bool {
+			call, _ := callOf(v)
+			return call != nil && isAtomicOnField(call, "pausing", "Load")
 		}
-		call, _ := callOf(retVal(r, 0))
-		if call == nil || calleeID(&call.Call) != tT+"checkStop" || r.Block() != call.Block() && !domI(call, r) {
-			return
-		}
-		// the final `return t.checkStop()`: reachable only when not pausing or protocol < 3
-		hit, _ := reachAvoid(load, func(x ssa.Instruction) bool { return x == ssa.Instruction(call) }, nil)
-		if hit == nil {
-			return
-		}
-		okEdge := false
-		for _, p := range call.Block().Preds {
-			if i := blockIf(p); i != nil {
-				if i.Cond == load.(ssa.Value) {
-					okEdge = true
-				}
+		reach := blocksUnder(g, []assumption{valueIs(isFieldLoad("Protocol"), c.constVal("kProtocolVersion3")), {pred: isPausing, val: true}})
+		eachInstr(g, func(in ssa.Instruction) {
+			if !isReturn(in) || !reach[in.Block()] {
+				return
 			}
-		}
-		_ = okEdge
-	})
+			c.check(!c.maySucceed(in), "checkStopAndPause/no-pass-while-paused", c.ipos(in), "while paused the gate is left only with an error", "the gate can let its caller write although the pause flag is still set (data is written during a pause)")
+		})
+		// and below protocol 3, or with the flag clear, it is the plain stop check
+		reach = blocksUnder(g, []assumption{{pred: isPausing, val: false}})
+		nPass := 0
+		eachInstr(g, func(in ssa.Instruction) {
+			r, ok := in.(*ssa.Return)
+			if !ok || !reach[in.Block()] {
+				return
+			}
+			if call, _ := callOf(retVal(r, 0)); call != nil && calleeID(&call.Call) == tT+"checkStop" {
+				nPass++
+			}
+		})
+		c.check(nPass > 0, "checkStopAndPause/ends-with-stop-check", c.pos(g.Pos()), "when not paused the gate's answer is the stop check's", "the gate no longer ends with the stop check")
+	}
 	// direct structural statement: the loop's continuation condition is the pause flag
 	cont := false
 	for _, r := range referrersOf(load.(ssa.Value)) {
@@ -492,6 +496,28 @@ func c18Sentinel(c *Ctx) {
 				}
 				callee := call.Call.StaticCallee()
 				if callee == nil || !c.inPkg(callee) {
+					// a function outside the package (fmt.Errorf, errors.Join, …): wrapping the chain's error there loses the identity too
+					wraps := false
+					var argVals []ssa.Value
+					for _, a := range call.Call.Args {
+						if els, ok := sliceElems(a); ok {
+							for _, e := range els {
+								argVals = append(argVals, e.V)
+							}
+						} else {
+							argVals = append(argVals, a)
+						}
+					}
+					for _, a := range argVals {
+						for _, la := range origins(strip(a), originOpts{}) {
+							if ac, _ := callOf(la.V); ac != nil {
+								if acallee := ac.Call.StaticCallee(); acallee != nil && chain[c.fnName(acallee)] {
+									wraps = true
+								}
+							}
+						}
+					}
+					c.check(!wraps, name+"/timeout-passed-up-unchanged", c.ipos(r), "the error of the read below is returned as it is", "the error of the read below is wrapped by "+calleeID(&call.Call)+" before it is returned: a re-wrapped timeout is not recognised after a pause")
 					continue
 				}
 				cn := c.fnName(callee)
